@@ -68,16 +68,39 @@ pub fn fixture() -> MithrilFixture {
 /// signer (or a reference) that pairs keys with the distribution of a neighbouring epoch is seen.
 /// The signer under test holds about three quarters of the stake, so that with the reference
 /// parameters (m >= 30, phi_f >= 0.8) it wins at least one lottery except with probability < 1e-15.
-pub fn stakes_during(fixture: &MithrilFixture, epoch: u64) -> Vec<SignerWithStake> {
+pub fn stakes_during(fixture: &MithrilFixture, epoch: u64, mode: Stakes) -> Vec<SignerWithStake> {
     fixture
         .signers_with_stake()
         .into_iter()
         .enumerate()
         .map(|(i, mut s)| {
-            s.stake = if i == ME { 10_000 + 500 * (epoch % 7) } else { 1_000 * i as u64 + 100 * (epoch % 5) };
+            s.stake = if i == ME { 10_000 + if mode == Stakes::OwnConstant { 0 } else { 500 * (epoch % 7) } } else { 1_000 * i as u64 + 100 * (epoch % 5) };
             s
         })
         .collect()
+}
+
+/// Two worlds. In the first every pool's stake changes at every epoch boundary: a signer that pairs
+/// its key with the stake of a neighbouring epoch cannot even build its signing key, or is rejected.
+/// In the second the stake of the pool under test stays the same (only the others' change), as for a
+/// pool whose delegation does not move: there the node *can* sign with the key of a neighbouring
+/// epoch, and only the verification by the aggregator tells.
+#[derive(Clone, Copy, Debug, PartialEq, Eq)]
+pub enum Stakes {
+    Varying,
+    OwnConstant,
+}
+
+impl Stakes {
+    pub fn label(&self) -> &'static str {
+        match self {
+            Stakes::Varying => "every-stake-changes-each-epoch",
+            Stakes::OwnConstant => "own-stake-constant",
+        }
+    }
+    pub fn from_label(l: Option<&str>) -> Stakes {
+        if l == Some("own-stake-constant") { Stakes::OwnConstant } else { Stakes::Varying }
+    }
 }
 
 /// What stands for the Cardano node and the outside world: survives a restart of the signer.
@@ -110,6 +133,7 @@ pub struct World {
     pub fixture: MithrilFixture,
     pub outside: Outside,
     pub node: Option<Node>,
+    pub mode: Stakes,
     pub restarts: u32,
     pub critical_errors: u32,
     pub panics: u32,
@@ -272,7 +296,7 @@ async fn build_node(config: &Configuration, o: &Outside) -> Node {
 }
 
 impl World {
-    pub async fn new(dir: PathBuf, fixture: &MithrilFixture) -> World {
+    pub async fn new(dir: PathBuf, fixture: &MithrilFixture, mode: Stakes) -> World {
         let _ = std::fs::remove_dir_all(&dir);
         std::fs::create_dir_all(&dir).unwrap();
         let me = fixture.signers_with_stake()[ME].party_id.clone();
@@ -294,7 +318,7 @@ impl World {
             agg: Arc::new(RefAgg::new(
                 chain.clone(),
                 (0..64u64)
-                    .map(|e| (e as i64, stakes_during(fixture, e).into_iter().map(|x| (x.party_id, x.stake)).collect()))
+                    .map(|e| (e as i64, stakes_during(fixture, e, mode).into_iter().map(|x| (x.party_id, x.stake)).collect()))
                     .collect(),
             )),
             chain,
@@ -307,7 +331,7 @@ impl World {
             }])),
         };
         let node = build_node(&config, &outside).await;
-        let w = World { dir, config, fixture: fixture.clone(), outside, node: Some(node), restarts: 0, critical_errors: 0, panics: 0 };
+        let w = World { dir, config, fixture: fixture.clone(), outside, node: Some(node), mode, restarts: 0, critical_errors: 0, panics: 0 };
         w.show_node_stakes().await;
         w
     }
@@ -330,7 +354,7 @@ impl World {
     /// the signer's node shows the stake distribution of the epoch it is in
     async fn show_node_stakes(&self) {
         let e = self.outside.agg.node_epoch().await;
-        self.outside.chain.set_signers(stakes_during(&self.fixture, e as u64)).await;
+        self.outside.chain.set_signers(stakes_during(&self.fixture, e as u64, self.mode)).await;
     }
 
     /// the chain enters the next epoch; the signer's node and the aggregator both see it (a skew
